@@ -134,7 +134,8 @@ class HistGen:
             # belief price in human units around the pool price
             do, da = p.decimals[i], p.decimals[1 - i]
             price = (x * 10 ** max(da - do, 0) * D) // max(1, y * 10 ** max(do - da, 0))
-            belief = max(1, int(price * rng.choice([0.5, 0.9, 1.0, 1.0, 1.1, 2.0])))
+            num, den = rng.choice([(1, 2), (9, 10), (1, 1), (1, 1), (11, 10), (2, 1)])     # (integers: prices can exceed any float)
+            belief = max(1, price * num // den)
             if belief > M128:
                 belief = None
         op = w.op_swap(actor, p, offer, amount, to=self.maybe_to(actor, p, offer), belief=belief, max_spread=max_spread)
